@@ -195,14 +195,14 @@ class SymReal:
         self.c = c
         # physical dimension (power of the time unit) for homogeneity tracking; None = untracked
         # or polymorphic (the constant 0); non-zero constants are dimensionless
-        self.d = d if c is None else (None if c == 0 else 0)
+        self.d = d if (c is None or d is not None) else (None if c == 0 else 0)
 
     @staticmethod
-    def const(x) -> "SymReal":
+    def const(x, d=None) -> "SymReal":
         f = _frac(x)
         if f is None:
             raise TypeError(f"not a finite real constant: {x!r}")
-        return SymReal(qval(f), f)
+        return SymReal(qval(f), f, d)
 
     @staticmethod
     def var(name: str, d=None) -> "SymReal":
@@ -294,10 +294,10 @@ class SymReal:
             return NotImplemented
         a = self
         if a.c is not None and b.c is not None:
-            return SymReal.const(a.c + b.c)
-        if a.c == 0:
+            return SymReal.const(a.c + b.c, _d_same(a, b, "+"))
+        if a.c == 0 and not a.d:
             return b
-        if b.c == 0:
+        if b.c == 0 and not b.d:
             return a
         return SymReal(a.t + b.t, None, _d_same(a, b, "+"))
 
@@ -315,10 +315,10 @@ class SymReal:
             return NotImplemented
         a = self
         if a.c is not None and b.c is not None:
-            return SymReal.const(a.c - b.c)
-        if b.c == 0:
+            return SymReal.const(a.c - b.c, _d_same(a, b, "-"))
+        if b.c == 0 and not b.d:
             return a
-        if a.c == 0:
+        if a.c == 0 and not a.d:
             return -b
         return SymReal(a.t - b.t, None, _d_same(a, b, "-"))
 
@@ -345,19 +345,23 @@ class SymReal:
         if b is None:
             return NotImplemented
         a = self
+        dd = _d_mul(a, b, 1)
         if a.c is not None and b.c is not None:
-            return SymReal.const(a.c * b.c)
+            return SymReal.const(a.c * b.c, dd)
         if a.c == 0 or b.c == 0:
-            return SymReal.const(0)
-        if a.c == 1:
-            return b
-        if b.c == 1:
-            return a
-        if a.c == -1:
-            return -b
-        if b.c == -1:
-            return -a
-        return SymReal(a.t * b.t, None, _d_mul(a, b, 1))
+            return SymReal.const(0, dd)
+        if a.c is not None:
+            if a.c == 1:
+                return b if not a.d else SymReal(b.t, None, dd)
+            if a.c == -1:
+                return SymReal(-b.t, None, dd)
+            return SymReal(a.t * b.t, None, dd)
+        if b.c is not None:
+            if b.c == 1:
+                return a if not b.d else SymReal(a.t, None, dd)
+            if b.c == -1:
+                return SymReal(-a.t, None, dd)
+        return SymReal(a.t * b.t, None, dd)
 
     __rmul__ = __mul__
 
@@ -372,18 +376,19 @@ class SymReal:
                 return SymReal.const(0)
             return NotImplemented
         a = self
+        dd = _d_mul(a, b, -1)
         if b.c is not None:
             if b.c == 0:
                 raise ZeroDivisionError("symbolic real divided by constant zero")
             if a.c is not None:
-                return SymReal.const(a.c / b.c)
+                return SymReal.const(a.c / b.c, dd)
             if b.c == 1:
-                return a
-            return SymReal(a.t * qval(1 / b.c), None, a.d)
+                return a if not b.d else SymReal(a.t, None, dd)
+            return SymReal(a.t * qval(1 / b.c), None, dd)
         ctx().assume_nonzero(b.t)
         if a.c == 0:
-            return SymReal.const(0)
-        return SymReal(a.t / b.t, None, _d_mul(a, b, -1))
+            return SymReal.const(0, dd)
+        return SymReal(a.t / b.t, None, dd)
 
     def __rtruediv__(self, o):
         if isinstance(o, np.ndarray):
@@ -429,7 +434,7 @@ class SymReal:
 
     def __neg__(self):
         if self.c is not None:
-            return SymReal.const(-self.c)
+            return SymReal.const(-self.c, self.d)
         return SymReal(-self.t, None, self.d)
 
     def __pos__(self):
@@ -437,7 +442,7 @@ class SymReal:
 
     def __abs__(self):
         if self.c is not None:
-            return SymReal.const(abs(self.c))
+            return SymReal.const(abs(self.c), self.d)
         return SymReal(z3.If(self.t >= 0, self.t, -self.t), None, self.d)
 
     def __pow__(self, n):
@@ -455,7 +460,7 @@ class SymReal:
             if n.denominator == 1:
                 k = n.numerator
                 if self.c is not None and (k >= 0 or self.c != 0):
-                    return SymReal.const(self.c**k)
+                    return SymReal.const(self.c**k, None if self.d is None else self.d * k)
                 if k == 0:
                     return SymReal.const(1)
                 r = self
@@ -492,6 +497,7 @@ class SymReal:
             return NotImplemented
         a = self
         if a.c is not None and b.c is not None:
+            _d_same(a, b, op)
             return {"lt": a.c < b.c, "le": a.c <= b.c, "gt": a.c > b.c, "ge": a.c >= b.c, "eq": a.c == b.c, "ne": a.c != b.c}[op]
         _d_same(a, b, op)
         x, y = a.t, b.t
@@ -520,32 +526,32 @@ class SymReal:
 
     # --- rounding
     def floor(self):
+        _d_dimless(self, "floor")
         if self.c is not None:
             return SymInt.const(math.floor(self.c))
-        _d_dimless(self, "floor")
         return SymInt(z3.ToInt(self.t))
 
     def ceil(self):
+        _d_dimless(self, "ceil")
         if self.c is not None:
             return SymInt.const(math.ceil(self.c))
-        _d_dimless(self, "ceil")
         return SymInt(-z3.ToInt(-self.t))
 
     __floor__ = floor
     __ceil__ = ceil
 
     def __trunc__(self):
+        _d_dimless(self, "trunc")
         if self.c is not None:
             return SymInt.const(math.trunc(self.c))
-        _d_dimless(self, "trunc")
         return SymInt(z3.If(self.t >= 0, z3.ToInt(self.t), -z3.ToInt(-self.t)))
 
     def __round__(self, nd=None):
         if nd is not None:
             raise NotImplementedError("round(x, ndigits) on a symbolic real")
+        _d_dimless(self, "round")
         if self.c is not None:
             return SymInt.const(round(self.c))
-        _d_dimless(self, "round")
         x = self.t
         fl = z3.ToInt(x)
         frac = x - z3.ToReal(fl)
@@ -564,7 +570,7 @@ class SymReal:
 
     # --- elementary functions (numpy calls these methods for object arrays)
     def sqrt(self):
-        if self.c is not None and self.c >= 0:
+        if self.c is not None and self.c >= 0 and not self.d:
             num, den = self.c.numerator, self.c.denominator
             rn, rd = math.isqrt(num), math.isqrt(den)
             if rn * rn == num and rd * rd == den:
